@@ -84,6 +84,13 @@ def cases(tier, seed):
                     "stall": "ack", "D": 0, "seed": seed, "fill": simenv.FILLS[(n // 3) % len(simenv.FILLS)]})
     for n, plan in ((7100, [1]), (10000, [1]), (10000, [2, 1]), (20000, [7, 3, 5])) + (((70000, [7, 3, 5]), (70000, [127])) if tier == "thorough" else ()):
         out.append({"n": n, "plan": plan, "crc": "granted", "stall": "ack", "D": 0, "seed": seed})
+    # timing attributes set by the application: a slow (conformant) server that needs longer than the default time-out
+    # for every answer, and a client whose RESPONSE_TIMEOUT was raised accordingly (on the instance / on the class)
+    for n in (8, 22, 64, 900):
+        for how in ("instance", "class"):
+            for crc in ("granted", "not-requested"):
+                out.append({"n": n, "plan": [3, 127], "crc": crc, "stall": "silent", "D": 0, "seed": seed, "slow": 0.5,
+                            "timeout": 3.0, "timeout_on": how})
     if tier == "thorough":
         for n in (888, 889, 890, 1778, 10000):
             for plan in ((127,), (1,), (2, 3), (5, 1, 127), (126, 3)):
@@ -159,6 +166,15 @@ def one(case, ch):
         simenv.W.timeouts = 0
     state["main"] = True
     err = None
+    restore = None
+    if case.get("slow"):
+        link.delay = case["slow"]
+        if case["timeout_on"] == "instance":
+            link.node.sdo.RESPONSE_TIMEOUT = case["timeout"]
+        else:
+            cls = type(link.node.sdo)
+            restore = (cls, cls.RESPONSE_TIMEOUT)
+            cls.RESPONSE_TIMEOUT = case["timeout"]
     try:
         kw = {} if case.get("buffering") is None else {"buffering": case["buffering"]}
         with link.node.sdo.open(MUX[0], MUX[1], "wb", size=n, block_transfer=True,
@@ -168,6 +184,8 @@ def one(case, ch):
                 fp.write(payload[a:a + piece])
     except Exception as e:  # noqa: BLE001
         err = e
+    if restore is not None:
+        restore[0].RESPONSE_TIMEOUT = restore[1]
     committed = [c for c in srv.commits]
     return dict(err=err, payload=payload, commits=committed, stored=srv.store.get(MUX), viol=list(srv.violations),
                 drops=state["drops"], nseg=state["seg"], timeouts=simenv.W.timeouts, frames=link.client_frames, completed=list(srv.completed))
